@@ -147,7 +147,7 @@ def shard_tables(sh, part):
                 rows.append((ann[a], ann[b], s))
                 rows.append((ann[b], ann[a], s))
         rng.shuffle(rows)
-        folder = os.path.join(sh.scratch, 'case-%d' % t)
+        folder = os.path.join(sh.scratch, 'case-%d' % (t // 3))        # every folder is summarised three times, the table rewritten in between
         os.makedirs(folder, exist_ok=True)
         with open(os.path.join(folder, 'pairwise_ranks.tsv'), 'w', newline='') as f:
             w = csv.writer(f, delimiter='\t', lineterminator='\n')
